@@ -60,7 +60,7 @@ class Prop(PropBase):
     id = 'C13'
     coq_imports = ['PV.Model.Cache']
     props_file = 'theories/Props/C13.v'
-    n_cases = {'quick': 360, 'thorough': 12000}
+    n_cases = {'quick': 360, 'thorough': 14000}
     rule = ('cases = (a) schedules: 2-3 real threads, 1-3 operations each (get with succeeding / '
             'raising creator, clear) on 1-3 keys of one real Cache (directly, or behind '
             'Loader.get_pipeline with (parent, name) requests incl. ones whose keys collide), an '
@@ -70,7 +70,8 @@ class Prop(PropBase):
             '(b) sequential histories of 4-9 get/fail/clear on the real StepCache, '
             'ContextParserCache, LoaderCache, BackoffCache, NamespaceCache, and Loader + real file '
             'loader + file cache on real yaml files. non-trivial = at least 4 observed events; '
-            'distinct by case hash')
+            'distinct by case hash. thorough adds every interleaving prefix of depth 11 (2048 each) for '
+            'four two-thread program pairs (get/get, fail/get, get/clear, colliding requests)')
     trusted_base = [
         'PARTIAL: threading.Lock is assumed to be a mutex and dict membership/get/set/clear to be '
         'atomic (GIL); in the replay the lock is replaced by a controller-driven mutex and the dict by a '
@@ -82,18 +83,43 @@ class Prop(PropBase):
         'BackoffCache starts with (and clears to) the built-in back-offs: only custom names are replayed '
         'against the model, built-ins are covered by a monitor; LoaderCache.clear_pipes reads _cache without '
         'the lock and is not part of the modelled clear',
-        'pypyr.moduleloader.add_sys_path (check-then-append under its own lock) is the same protocol shape '
-        'but is NOT separately modelled or replayed',
+        'pypyr.moduleloader.add_sys_path is modelled separately (second transition system in Model/Cache.v) '
+        'and replayed the same way, with sys.path / _known_dirs replaced by gated list / set subclasses; '
+        'Path.exists() is an input of the model',
         'parent objects are modelled by their str(); a parent whose str() is empty but which is truthy is '
         'outside the model',
     ]
 
     # ------------------------------------------------------------------ generation
+    EXHAUSTIVE_PAIRS = [
+        [[['get', None, 'a', True]], [['get', None, 'a', True]]],
+        [[['get', None, 'a', False]], [['get', None, 'a', True]]],
+        [[['get', None, 'a', True]], [['clear']]],
+        [[['get', '/x', 'a+b', True]], [['get', '/x+a', 'b', True]]],
+    ]
+
+    def exhaustive(self, depth):
+        """every interleaving prefix of two threads to the given depth, then round-robin"""
+        out = []
+        for progs in self.EXHAUSTIVE_PAIRS:
+            target = 'loader' if progs[0][0][1] else 'cache'
+            for bits in range(2 ** depth):
+                sched = [(bits >> i) & 1 for i in range(depth)] + [0, 1] * 20
+                out.append({'kind': 'sched', 'target': target, 'nc': False, 'progs': progs,
+                            'sched': sched, 'complete': True})
+        return out
+
     def generate(self, rng, n, tier):
         cases = []
+        if tier == 'thorough' and n >= 10000:
+            cases = self.exhaustive(11)
+            n -= len(cases)
         for _ in range(n):
-            if rng.random() < 0.62:
+            r = rng.random()
+            if r < 0.55:
                 cases.append(self.gen_sched_case(rng))
+            elif r < 0.67:
+                cases.append(self.gen_syspath_case(rng))
             else:
                 cases.append(self.gen_seq_case(rng))
         return cases
@@ -126,6 +152,22 @@ class Prop(PropBase):
         return {'kind': 'sched', 'target': target, 'nc': rng.random() < 0.15, 'progs': progs,
                 'sched': gen_sched(rng, n, total, complete), 'complete': complete}
 
+    def gen_syspath_case(self, rng):
+        names = rng.sample(['d1', 'd2', 'd+3', 'nope'], rng.choice([1, 2, 2, 3]))
+        dirs = {nm: nm != 'nope' for nm in names}
+        pre = [nm for nm in names if dirs[nm] and rng.random() < 0.2]
+        n = rng.choice([2, 2, 3])
+        progs = [[rng.choice(names) for _ in range(rng.choice([1, 2, 2, 3]))] for _ in range(n)]
+        total = sum(len(p) for p in progs)
+        complete = rng.random() < 0.85
+        sched = []
+        for _ in range(rng.randint(0, 8 * total)):
+            sched += [rng.randrange(n)] * rng.choice([1, 1, 1, 2, 3])
+        if complete:
+            sched += list(range(n)) * (7 * total + 5)
+        return {'kind': 'syspath', 'target': 'add_sys_path', 'nc': False, 'dirs': dirs, 'pre': pre,
+                'as_path': rng.random() < 0.5, 'progs': progs, 'sched': sched, 'complete': complete}
+
     def gen_seq_case(self, rng):
         target = rng.choice(SEQ_TARGETS)
         nops = rng.randint(4, 9)
@@ -150,22 +192,45 @@ class Prop(PropBase):
         if case['kind'] == 'sched':
             import c13_sched
             return c13_sched.run_schedule(case)
+        if case['kind'] == 'syspath':
+            import c13_syspath
+            return c13_syspath.run_syspath(case)
         import c13_seq
         return c13_seq.run_sequential(case)
 
     # ------------------------------------------------------------------ model
+    def asp_parts(self, case):
+        pre = pv.coq_list([pv.coq_str(x) for x in case['pre']])
+        progs = pv.coq_list([pv.coq_list([f'({pv.coq_str(nm)}, {pv.coq_bool(case["dirs"][nm])})' for nm in p])
+                             for p in case['progs']])
+        n = len(case['progs'])
+        sched = pv.coq_list([f'{t}%nat' for t in case['sched'] if t < n])
+        return pre, progs, sched
+
     def coq_check(self, case, obs):
+        if case['kind'] == 'syspath':
+            ctor = {'acq': 'AEAcq', 'rel': 'AERel', 'append': 'AEAppend', 'known': 'AEKnown'}
+            evs = pv.coq_list([f'{ctor[e[0]]} {e[1]}%nat' + (f' {pv.coq_str(e[2])}' if len(e) > 2 else '')
+                               for e in obs['events']])
+            app = pv.coq_list([pv.coq_str(x) for x in obs['appended']])
+            pre, progs, sched = self.asp_parts(case)
+            return f'(check_asp {pre} {progs} {sched} {evs} {app})'
         evs = pv.coq_list([coq_event(e) for e in obs['events'] if not e[0].startswith('_')])
         fn = 'check_full' if case['kind'] == 'sched' else 'check_ops'
         return f'({fn} {coq_args(case)} {evs})'
 
     def coq_model_obs(self, case):
+        if case['kind'] == 'syspath':
+            pre, progs, sched = self.asp_parts(case)
+            return f'(fun a => (rev (alog a), added a)) (arun {sched} (ainit {pre} {progs}))'
         if case['kind'] == 'sched':
             return f'model_log {coq_args(case)}'
         return f'filter op_level (model_log {coq_args(case)})'
 
     # ------------------------------------------------------------------ monitors
     def monitor(self, case, obs):
+        if case['kind'] == 'syspath':
+            return c13_monitor.monitor_syspath(case, obs)
         return c13_monitor.monitor_events(case, obs)
 
     def nontrivial(self, case, obs):
@@ -175,6 +240,11 @@ class Prop(PropBase):
         tags = [f'kind:{case["kind"]}', f'target:{case["target"]}', f'nc:{case["nc"]}',
                 f'threads:{len(case["progs"])}']
         evs = obs['events']
+        if case['kind'] == 'syspath':
+            return tags + ['complete' if case.get('complete') else 'cut-off',
+                           'lock-contended' if any(e[0] == 'acq' for e in evs) and len(
+                               {e[1] for e in evs if e[0] == 'acq'}) > 1 else 'single-locker',
+                           f'appended:{len(obs["appended"])}']
         kinds = {e[0] for e in evs}
         for k in ('failed', 'load', 'clear', 'cleared'):
             if k in kinds:
